@@ -14,6 +14,7 @@ def want(case, sig):
 
 
 def run(v, tier, seed):
-    return run_view_check(v, tier, seed, want, [viewpipe.cursor_results, viewpipe.visit_results, viewpipe.gen_cursor_results, viewpipe.gen_visit_results],
+    return run_view_check(v, tier, seed, want, [viewpipe.cursor_results, viewpipe.visit_results, viewpipe.gen_cursor_results, viewpipe.gen_visit_results,
+                                                viewpipe.repo_cursor_results, viewpipe.repo_visit_results],
                           "one vector per cursor-accessor transition: (level instance, cursor position in {required position, +1, member start/end, level start/end, unset}, member, wrapper, get|set) on images incl. inflated block lengths",
                           "Cursor.tla (legality + landing table of DESIGN.md Appendix A) model-checked (TableLaws, LevelWalk) and every transition replayed: returned value/view, cursor position, buffer, and that illegal calls reach the assertion handler")
